@@ -5,11 +5,12 @@
 cd "$(dirname "$0")"
 export CARGO_NET_OFFLINE=true
 mkdir -p out evidence
-IDS=$(python3 -c "import json;print(' '.join(c['property_id'] for c in json.load(open('MANIFEST.json'))['checks']))")
+if command -v python3-vt >/dev/null 2>&1; then PY=python3-vt; else PY=python3; fi
+IDS=$($PY -c "import json;print(' '.join(c['property_id'] for c in json.load(open('MANIFEST.json'))['checks']))")
 RC=0
 for id in $IDS; do
   lid=$(echo "$id" | tr 'A-Z' 'a-z')
-  MODS=$(python3 -c "import sys;sys.path.insert(0,'.');import importlib;m=importlib.import_module('tools.cv.$lid');print(' '.join(m.PROOF_MODULES))" 2>/dev/null)
+  MODS=$($PY -c "import sys;sys.path.insert(0,'.');import importlib;m=importlib.import_module('tools.cv.$lid');print(' '.join(m.PROOF_MODULES))" 2>/dev/null)
   (cd lean && lake build $MODS cv_$lid) || { echo "setup: lake build failed for $id"; RC=1; }
   (cd exec && cargo build --offline --bin $lid) || { echo "setup: cargo build failed for $id"; RC=1; }
 done
